@@ -76,6 +76,7 @@ func corpusGraph() []*modSpec {
 		mk("graph-aliases-in-the-analysed-file", "package models\n\ntype Point struct{ X, Y int }\n\ntype Coord = Point\n\ntype Ids = []int64\n\ntype Label = string\n\ntype S struct {\n\tC Coord\n\tI Ids\n\tL Label\n}\n"),
 		mk("graph-union-of-non-struct-members", "package models\n\ntype U interface{ isU() }\n\ntype S struct {\n\tV U\n\tC Circle\n}\n",
 			modFile{"members.go", "package models\n\ntype Kind int\n\nconst (\n\tK0 Kind = iota\n\tK1\n)\n\ntype Tags []string\ntype Count int\ntype ByName map[string]int\ntype Circle struct{ R int }\ntype Group struct{ Items []U }\n\nfunc (Kind) isU()   {}\nfunc (Tags) isU()   {}\nfunc (Count) isU()  {}\nfunc (ByName) isU() {}\nfunc (Circle) isU() {}\nfunc (Group) isU()  {}\n"}),
+		mk("graph-embedded-struct-reached-through-its-own-union", "package models\n\ntype U interface{ isU() }\n\ntype A struct {\n\tX int\n\tV U\n}\n\nfunc (A) isU() {}\n\ntype B struct {\n\tA\n\tY int\n}\n\ntype C struct {\n\tB\n\tZ string `json:\"z\"`\n}\n"),
 		mk("graph-self-recursive", "package models\n\ntype Tree struct {\n\tChildren []Tree\n\tByName map[string]Tree\n\tPair [2]*Tree\n}\n"),
 		mk("graph-mutual", "package models\n\ntype A struct{ Bs []B }\ntype B struct{ As map[int]A; Self []B }\n"),
 		mk("graph-recursive-containers", "package models\n\ntype Tree map[string]Tree\ntype MA map[string]MB\ntype MB map[int]MA\ntype Nest []Nest\ntype Deep map[string][]Deep\ntype Grid [2]Cells\ntype Cells []Grid\n\ntype S struct {\n\tT Tree\n\tA MA\n\tN Nest\n\tD Deep\n\tG Grid\n}\n"),
@@ -105,6 +106,7 @@ func corpusFields() []*modSpec {
 		mk("tags-embedded", "package models\n\ntype Base struct {\n\tID int64\n\tName string `json:\"name\"`\n}\n\ntype T struct {\n\tBase\n\tExtra int\n}\n\ntype Table struct {\n\tId int64\n\tData T\n}\n"),
 		mk("tags-embedded-tagged-with-its-own-name", "package models\n\ntype Inner struct {\n\tA int\n\tB string `json:\"b\"`\n}\n\ntype Other struct{ Z int }\n\ntype T struct {\n\tInner `json:\"Inner\"`\n\tX int\n}\n\ntype U struct {\n\tOther `json:\"Other,omitempty\"`\n\tY int\n}\n\ntype Table struct {\n\tId int64\n\tData T\n\tMore U\n}\n"),
 		mk("tags-embedded-pointer", "package models\n\ntype Audit struct {\n\tAuthor string\n\tAt int `json:\"at\"`\n}\n\ntype Record struct {\n\t*Audit\n\tTitle string\n}\n\ntype Table struct {\n\tId int64\n\tData Record\n}\n"),
+		mk("tags-embedded-struct-reached-through-its-own-union", "package models\n\ntype U interface{ isU() }\n\ntype A struct {\n\tX int\n\tV U\n}\n\nfunc (A) isU() {}\n\ntype B struct {\n\tA\n\tY int\n}\n\ntype C struct {\n\tB\n\tZ string `json:\"z\"`\n}\n"),
 		mk("tags-embedded-tagged", "package models\n\ntype Inner struct{ A int }\n\ntype T struct {\n\tInner `json:\"inner\"`\n\tB int\n}\n\ntype Table struct {\n\tId int64\n\tData T\n}\n"),
 		mk("tags-embedded-empty-name", "package models\n\ntype Base struct {\n\tID int64\n\tName string `json:\"name\"`\n}\n\ntype Other struct{ Z int }\n\ntype Third struct{ W int }\n\ntype T struct {\n\tBase `json:\",omitempty\"`\n\tOther `json:\"\"`\n\tThird `json:\",\"`\n\tExtra string\n}\n\ntype Table struct {\n\tId int64\n\tData T\n}\n"),
 		mk("tags-embedded-conflict", "package models\n\ntype X struct{ A int; B int }\ntype Y struct{ A int; C int }\n\ntype T struct {\n\tX\n\tY\n}\n\ntype Table struct {\n\tId int64\n\tData T\n}\n"),
